@@ -553,6 +553,15 @@ func (fr *Frame) applyContract(spec *FuncSpec, cc *ssa.CallCommon, st *State, po
 		}
 		vc.assumeIf(fr.curReach, g)
 	}
+	for _, as := range spec.Assumes {
+		g, err := mk(st).evalBool(as.E)
+		if err != nil {
+			vc.unsupportedf("assumes of %s: %v", spec.Key, err)
+			continue
+		}
+		vc.assumeIf(fr.curReach, g)
+		vc.note("assumed (not proved) about %s: %s", spec.Key, as.Text)
+	}
 	for _, el := range spec.Elems {
 		ctx := mk(st.clone())
 		ch, err := ctx.eval(el.Chan)
